@@ -164,7 +164,7 @@ type ReqOpts struct {
 	Expect    bool // may generate Expect: 100-continue
 	HTTP10    bool // may generate HTTP/1.0 requests
 	Huge      bool // may generate 512 KiB bodies
-	ChunkExt  bool // may generate chunk extensions (outside the claimed domain)
+	ChunkExt  bool // may generate chunk extensions (a recipient ignores them)
 	NoBody    bool // never generate a body
 	ForceBody bool // always generate a non-empty body
 	MaxBody   int  // cap on the body length (0 = none)
@@ -262,7 +262,7 @@ func GenReq(t *rapid.T, idx int, o ReqOpts) (*wire.Req, *ReqInfo) {
 			r.LeadingZeros = rapid.IntRange(1, 3).Draw(t, "chunkZeroN")
 		}
 		if o.ChunkExt && rapid.IntRange(0, 5).Draw(t, "chunkExt") == 0 {
-			r.ChunkExt = ";ext=1"
+			r.ChunkExt = rapid.SampledFrom([]string{";ext=1", ";seq=1;sig=\"a1b2\"", ";0", " ;x", ";n"}).Draw(t, "chunkExtText")
 		}
 		if rapid.IntRange(0, 2).Draw(t, "trailers") == 0 {
 			nt := rapid.IntRange(1, 3).Draw(t, "nTrailers")
@@ -493,6 +493,8 @@ type RespOpts struct {
 	Fold         bool
 	UntilClose   bool // until-close framing allowed (last response on a connection)
 	Huge         bool
+	ChunkExt     bool // chunk extensions on chunk-size lines (a recipient ignores them)
+	OtherInterim bool // interim responses other than 100 Continue (102, 103) before the final one
 }
 
 // GenResp draws a well-formed response to a request with the given method.
@@ -567,6 +569,12 @@ func GenResp(t *rapid.T, idx int, method string, o RespOpts) *wire.Resp {
 	r.Lines = lines
 	if rapid.IntRange(0, 7).Draw(t, "interim") == 0 {
 		r.Interim100 = rapid.IntRange(1, 2).Draw(t, "nInterim")
+		if o.OtherInterim {
+			r.InterimStatus = rapid.SampledFrom([]int{0, 0, 102, 103}).Draw(t, "interimStatus")
+		}
+	}
+	if r.Framing == wire.FrChunked && o.ChunkExt && rapid.IntRange(0, 4).Draw(t, "respChunkExt") == 0 {
+		r.ChunkExt = rapid.SampledFrom([]string{";seq=1", ";seq=2;sig=\"a1b2\"", ";x"}).Draw(t, "respChunkExtText")
 	}
 	return r
 }
